@@ -206,7 +206,8 @@ func famEntryJSON(x *lc) {
 // ---------------------------------------------------------------------------------------------
 // family 2: receiver history
 
-var historyKinds = []string{"fresh", "constructed-other", "decoded-other"}
+// "decoded-two": (thorough) a zero value that decoded value j, then value k, for all ordered pairs
+var historyKinds = []string{"fresh", "constructed-other", "decoded-other", "decoded-two"}
 
 func famReceiver(x *lc) {
 	ds := availDecoders(x.o)
@@ -214,7 +215,11 @@ func famReceiver(x *lc) {
 		x.c.Skip("no decoder")
 		return
 	}
-	h := x.c.Choose(len(historyKinds), "receiver-history")
+	nh := 3
+	if x.c.Tier == "thorough" {
+		nh = 4
+	}
+	h := x.c.Choose(nh, "receiver-history")
 	x.c.Cover("history", historyKinds[h])
 	evals, bad := 0, 0
 	for _, d := range ds {
@@ -234,11 +239,31 @@ func famReceiver(x *lc) {
 			continue // a dirty receiver cannot be judged separately from a broken plain round trip (reported by the fresh leaf)
 		}
 		// every catalogue value of the type (the same one included) as the receiver's previous content
-		for j := range x.e.vals {
+		nprev := len(x.e.vals)
+		if h == 3 {
+			nprev *= nprev
+		}
+		for jk := 0; jk < nprev; jk++ {
+			j := jk % len(x.e.vals)
 			var recv any
 			how := "constructed as"
 			if h == 1 {
 				recv = build(x.seed, x.e, j)
+			} else if h == 3 {
+				k := jk / len(x.e.vals)
+				how = fmt.Sprintf("having decoded [%s] and then", x.e.vals[k].label)
+				refk, okk := original(x.seed, x.e, k).ref(d)
+				refj, okj := original(x.seed, x.e, j).ref(d)
+				if !okk || !okj {
+					continue
+				}
+				recv = freshLike(x.o.obj)
+				if _, o := x.decodeInto(d, recv, refk); o.err != nil || o.panicked != nil {
+					continue
+				}
+				if _, o := x.decodeInto(d, recv, refj); o.err != nil || o.panicked != nil {
+					continue
+				}
 			} else {
 				how = "having decoded"
 				refj, okj := original(x.seed, x.e, j).ref(d)
